@@ -7,14 +7,16 @@ CFG = {
         "Parsley.C07.pngRowLoop_spec", "Parsley.C07.sumLeftLoop_spec",
         "Parsley.C07.predictor_roundtrip_samples8", "Parsley.C07.predictor_roundtrip_samples16",
         "Parsley.C07.legacy_paeth_witness", "Parsley.C07.legacy_average_witness",
-        "Parsley.C07.png_decode_sound_partial", "Parsley.C07.pngRows_reencodes",
+        "Parsley.C07.filter_roundtrip",
+        "Parsley.C07.decode_sound", "Parsley.C07.decode_iff_encoded",
+        "Parsley.C07.png_decode_sound", "Parsley.C07.pngRows_reencodes",
+        "Parsley.C07.tiff_decode_sound", "Parsley.C07.tiff_decode_sound_of_dims",
+        "Parsley.C07.tiff_zero_row_discards", "Parsley.C07.tiff_zero_row_iff",
+        "Parsley.C07.tiff_zero_row_not_injective_witness",
+        "Parsley.C07.tiffRows_reencodes", "Parsley.C07.tiffRow_reencodes",
+        "Parsley.C07.sumLeftLoop_reencodes", "Parsley.C07.sumLeftLoop_inv",
     ],
-    "partial": {
-        "Parsley.C07.png_decode_sound_partial":
-            "converse of the round trip (whenever the decoder returns a value, that value re-encodes to its input, so it accepts "
-            "only encoder-shaped streams) is proved for the five PNG predictors at all parameters; the same converse for TIFF "
-            "predictor 2 is not proved (the statement of C07 itself - round trip and no panic - is proved in full for TIFF too)",
-    },
+    "partial": {},
     "n": {"quick": 1500, "thorough": 100000},
     "exhaustive": {"quick": False, "thorough": True},
     "rule": "corpus (DESIGN section-4 defects #11-#16 and hand-built 16-bit/sub-byte/TIFF rows) first; Paeth on the real fn for all c "
@@ -39,6 +41,8 @@ CFG = {
         "predictor_never_panics)",
         "PNG predictors: at least one row (an empty stream is rejected by the code's explicit size check; png_no_rows_is_error)",
         "TIFF predictor 2 is accepted for 8- and 16-bit samples only (1/2/4-bit TIFF is rejected with an error by the fixed code)",
+        "TIFF predictor 2 with a zero-byte row (Columns 0 or Colors 0) returns the empty output for any data (the code's 'No data' "
+        "branch): excluded from decode_sound, characterised by tiff_zero_row_discards",
         "/Predictor 15 (PNG optimum) stays rejected as before the fix: outside the statement's six predictors",
         "the tree has pending_fixes/C07-01-predictor-arithmetic.patch and C07-02-hook-verif-predict.patch applied",
     ],
@@ -54,7 +58,10 @@ LEVEL = {
             "Average are the specification's functions for all byte triples, by integer arithmetic (paeth_eq_spec, average_eq_spec, "
             "paeth_nearest) and cannot overflow their i16/u16 intermediates; and that for ALL integer /Predictor /Colors /Columns "
             "/BitsPerComponent (absent, 0, negative, > 2^32, i64::MAX) and all data the code reaches no panic site "
-            "(predictor_never_panics, 64-bit usize arithmetic explicit). The model mirrors the repaired Rust code line by line and "
+            "(predictor_never_panics, 64-bit usize arithmetic explicit). The decoder is a two-sided inverse of the forward filters for all "
+            "six predictors, at all colours/columns/bits: whenever it returns a value on ANY data, that value is a list of rows whose "
+            "forward filter is exactly that data (decode_sound = png_decode_sound + tiff_decode_sound; decode_iff_encoded; the one "
+            "excluded shape, TIFF with a zero-byte row, is characterised by tiff_zero_row_discards). The model mirrors the repaired Rust code line by line and "
             "is tied to it on every check by a correspondence run (random images x six predictors x parameter grid, boundary "
             "parameters, Paeth triples exhaustively in the thorough tier).",
 }
